@@ -1,6 +1,8 @@
 pub mod c10;
+pub mod c12;
 pub mod c14;
 pub mod c15;
+pub mod c18;
 pub mod generic;
 pub mod mt;
 
@@ -131,6 +133,19 @@ fn gen_cfg(name: &str) -> Option<(generic::GenCfg, &'static str)> {
             c.p_interrupt = 60;
             "C06"
         }
+        "c07" => {
+            c.name = "c07";
+            c.kinds = vec![Socket, SocketDirect, Open, OpenDirect, Accept, AcceptNoAddr, MultishotAccept, Pipe, PipeDirect, ToDirect, ToFile, Close, Read, Write, SyncAll];
+            c.sq_sizes = vec![1, 2, 2, 4];
+            c.w_drop = 140;
+            c.w_drop_results = 120;
+            c.w_new = 170;
+            c.w_stdio = 25;
+            c.max_ops = 8;
+            c.steps = 80;
+            c.p_interrupt = 40;
+            "C07"
+        }
         "c09" => {
             c.name = "c09";
             c.p_interrupt = 550;
@@ -160,6 +175,8 @@ pub fn run(name: &str, args: &Args) -> Option<Report> {
             guarded(&mut rep, name, "C14", seed, start, |rep| c14::run(seed, start, iters, rep));
         }
         "c15" => c15::run(args.seed, args.start, args.iters, &mut rep),
+        "c18" => c18::run(args.seed, args.start, args.iters, &mut rep),
+        "c12" => c12::run(args.seed, args.start, args.iters, &mut rep, false),
         "c10" => c10::run(args.seed, args.start, args.iters, &mut rep),
         "c04" => {
             if args.start == 0 {
